@@ -86,7 +86,8 @@ def run(chk: Check) -> None:
         "exhaustive over a 10-id universe (listed x2, unlisted, blocked, listed+blocked, active gateway, foreign 18:, "
         "18:000730, 63:262142, --:------): all (src, dst, direction) triples x all configurations of known_list "
         "subsets / block_list subsets / HGI entry / enforcement / active gateway (unknown, known, unlisted, blocked); the "
-        "real _is_wanted_addrs on a real PortProtocol vs the model and vs the property text; end-to-end delivery and "
+        "real _is_wanted_addrs on a real PortProtocol vs the model and vs the property text, also asked before the gateway "
+        "is identified and again (twice) after; end-to-end delivery and "
         "send refusal on a sample; non-trivial = distinct (config, src, dst, direction)"
     )
 
@@ -130,6 +131,30 @@ def run(chk: Check) -> None:
             # end to end, a sample
             if active is None:
                 continue
+            # the verdict is a function of the configuration and the gateway known *now*, not of what the filter
+            # was asked earlier: the same questions before the gateway is identified, then again after
+            p3 = protocol_factory(lambda m: None, disable_qos=True, enforce_include_list=enforce, exclude_list=exc_l, include_list=inc)
+            t3 = FakeTransport(p3, loop, active)
+            pre_active = p3._active_hgi
+            for phase in ("before-connect", "after-connect", "after-connect-again"):
+                if phase == "after-connect":
+                    p3.connection_made(t3, ramses=True)
+                    p3.resume_writing()
+                now_active = p3._active_hgi
+                pairs = [(a, b, c) for a in UNIVERSE for b in UNIVERSE for c in (False, True)]
+                if phase != "before-connect":
+                    pairs.reverse()
+                for src, dst, sending in pairs:
+                    chk.evaluations += 1
+                    got = bool(p3._is_wanted_addrs(src, dst, sending=sending))
+                    want = oracle(src, dst, known, block, enforce, now_active, sending)
+                    D.add("filter.wanted", [",".join(block), ",".join(known), str(bool(enforce)), str(now_active), src, dst, str(sending)], f"ok\t{got}")
+                    if got != want:
+                        chk.violation(
+                            f"filter.history:{'overblock' if want else 'leak'}:{'tx' if sending else 'rx'}",
+                            f"known={known} block={block} enforce={enforce}: asked {phase} (gateway {now_active}, was {pre_active}), {src}->{dst} "
+                            f"{'send' if sending else 'receive'} is {'passed' if got else 'dropped'}, must be {'passed' if want else 'dropped'}",
+                            {"op": "filter.history", "phase": phase, "known": known, "block": block, "enforce": enforce, "active": active, "src": src, "dst": dst, "sending": sending})
             for _ in range(12):
                 src, dst = rnd.choice(UNIVERSE[:7]), rnd.choice(UNIVERSE)
                 fr = frame_for(src, dst)
